@@ -418,6 +418,8 @@ static int uv__signal_start(uv_signal_t* handle,
   handle->signum = signum;
   if (oneshot)
     handle->flags |= UV_SIGNAL_ONE_SHOT;
+  else
+    handle->flags &= ~UV_SIGNAL_ONE_SHOT;
 
   RB_INSERT(uv__signal_tree_s, &uv__signal_tree, handle);
 
